@@ -118,7 +118,7 @@ type c02Case struct {
 
 // c02Doc picks the document of a case.
 func c02Doc(r *gen.Rand, cd *codec.Codec, short bool, maxLen int) gen.Doc {
-	kind := r.Intn(10)
+	kind := r.Intn(12)
 	var d gen.Doc
 	switch {
 	case kind < 4: // foreign
@@ -264,6 +264,28 @@ func allCutSets(n int) [][]int {
 	return out
 }
 
+// tiny: every byte string of length <= 3 over the format's marker alphabet
+// under all cut sets (verdict and, if accepted, events).
+func c02Tiny(c *run.C) {
+	cd := codec.All[c.Idx%3]
+	alpha := gen.Interesting(cd.Name)
+	a := c.Idx / 3
+	if a >= len(alpha) {
+		return
+	}
+	n := 0
+	for _, x := range alpha {
+		for _, y := range alpha {
+			doc := []byte{alpha[a], x, y}
+			c02Check(c, cd, gen.Doc{Codec: cd.Name, Bytes: doc, Origin: "tiny3"}, allCutSets(3))
+			n++
+		}
+		c02Check(c, cd, gen.Doc{Codec: cd.Name, Bytes: []byte{alpha[a], x}, Origin: "tiny2"}, allCutSets(2))
+	}
+	c.Observe("tiny_docs", n)
+	c.Nontrivial(gen.Mix(20, uint64(c.Idx)))
+}
+
 func c02Exhaustive(c *run.C) {
 	r := c.R
 	cd := codec.All[c.Idx%3]
@@ -370,7 +392,7 @@ func init() {
 		ID:    "C02",
 		Level: "exploration",
 		Rule: "documents: foreign-generator output, the library's own encoder output, concatenated streams and mutated (invalid) documents of each format. " +
-			"suite exhaustive: documents of <= 11 (quick) / 14 (thorough) bytes built to contain multi-byte tokens x ALL 2^(n-1) cut sets; suite systematic: longer documents x every single cut, " +
+			"suite tiny: ALL byte strings of length <= 3 over each format's marker alphabet x all cut sets; suite exhaustive: documents of <= 11 (quick) / 14 (thorough) bytes built to contain multi-byte tokens x ALL 2^(n-1) cut sets; suite systematic: longer documents x every single cut, " +
 			"all pairs of cuts (n<=48), strides 1..65, random cut sets with empty chunks, cuts at the first/last byte of every token. Entry points: ParseReader(chunking reader, incl. data together with io.EOF) " +
 			"and Write*+end-of-input (hook; chunks scribbled after each Write). Oracle: event list and accept/reject equal those of the whole-buffer Parse (verdict only for rejected documents). " +
 			"distinct_nontrivial = distinct (codec, document) pairs.",
@@ -380,7 +402,8 @@ func init() {
 			"the Write*+end entry point needs the verif hook VerifFinalize; without it only ParseReader is exercised",
 		},
 		Suites: []*run.Suite{
-			{Name: "exhaustive", N: tierN(3000, 30000), Case: c02Exhaustive, Require: []string{"schedules_run", "schedules_splitting_a_token", "docs_accepted", "docs_rejected"}},
+			{Name: "tiny", N: tierN(3*60, 3*60), Case: c02Tiny, Require: []string{"tiny_docs"}},
+			{Name: "exhaustive", N: tierN(9000, 60000), Case: c02Exhaustive, Require: []string{"schedules_run", "schedules_splitting_a_token", "docs_accepted", "docs_rejected"}},
 			{Name: "systematic", N: tierN(3000, 60000), Case: c02Systematic, Require: []string{"schedules_run", "schedules_splitting_a_token"}},
 		},
 	})
